@@ -125,7 +125,7 @@ def stepLine (s : State) (line : String) : State × String :=
               (if sns.isEmpty then "" else " keys=" ++ snapKeys) ++
               (if sns.any (·.split.isSome) then " rckeys=allowlist,percentage,percentage_split_point" else ""))
     | "probing" =>
-      let ts := (s.lbs.filter (·.probing)).flatMap (·.targets)
+      let ts := s.probing.flatten
       (s, "probing " ++ " ".intercalate (sortStrs (ts.map encB)))
     | _ =>
       match parseCmd op kv with
